@@ -240,7 +240,7 @@ Qed.
    when the last append was torn after the body was complete *)
 Theorem torn_checksum_is_eof ncols id acts n :
   id < 2 ^ 64 -> Forall (wf_action ncols) acts -> (n < 4)%nat ->
-  parse_record ncols (ser_body id acts ++ firstn n (le 4 (crc32 (ser_body id acts)))) = PEof.
+  parse_record ncols (ser_body id acts ++ firstn n (le 4 (crc32 (ser_body id acts)))) = PCut id.
 Proof.
   intros Hid Hw Hn. set (body := ser_body id acts).
   assert (Hbody : body = log_begin_record :: le 8 id ++ flat_map ser_action acts ++ [log_end_record]) by reflexivity.
@@ -252,7 +252,7 @@ Proof.
   rewrite Er1 at 2. rewrite (parse_ser_actions ncols acts (S (length r1)) [] _ Hw).
   2:{ unfold r1. rewrite app_length. pose proof (flat_map_len acts). lia. }
   cbn [rev app]. unfold take. assert (Hc : (length c < 4)%nat) by (unfold c; rewrite firstn_length, le_length; lia).
-  destruct (Nat.leb_spec 4 (length c)); [lia|reflexivity].
+  destruct (Nat.leb_spec 4 (length c)); [lia|]. rewrite unle_le by (rewrite pow256_8; exact Hid). reflexivity.
 Qed.
 
 (* ---- a torn record is never applied ----
@@ -292,7 +292,7 @@ Proof.
       destruct (value_len _ _ _) as [n|]; [|discriminate].
       destruct (take n r1) as [[p r2]|] eqn:T2; [|discriminate]. rewrite (take_ext _ _ _ _ z T2).
       intros E. injection E as <- <-. reflexivity. }
-  destruct ((op =? log_drop_table) || (op =? log_drop_ref_count_table)); [|discriminate].
+  destruct ((op =? log_drop_table) || (op =? log_drop_ref_count_table)); [|destruct (op =? log_begin_record); discriminate].
   destruct (take 2 b) as [[h r1]|] eqn:T1; [|discriminate]. rewrite (take_ext _ _ _ _ z T1).
   intros E. injection E as <- <-. reflexivity.
 Qed.
@@ -318,7 +318,7 @@ Lemma parse_record_ext ncols b z id acts len :
 Proof.
   intros H. assert (Hs := H). apply parse_record_spec in Hs. destruct Hs as [blen [-> [H9 [Hle _]]]].
   unfold parse_record in *. destruct b as [|op b]; [discriminate|]. cbn [app].
-  destruct (negb (op =? log_begin_record)); [discriminate|].
+  destruct (negb (op =? log_begin_record)); [repeat match goal with H : context [if ?c then _ else _] |- _ => destruct c end; discriminate|].
   destruct (take 8 b) as [[idb r1]|] eqn:T1; [|discriminate]. rewrite (take_ext _ _ _ _ z T1).
   destruct (parse_actions ncols (S (length r1)) r1 []) as [[[a r2]|]|] eqn:PA; try discriminate.
   rewrite (parse_actions_ext ncols z _ _ _ _ _ PA (S (length (r1 ++ z)))) by (rewrite app_length; lia).
